@@ -1,6 +1,7 @@
 import WmModel.Basic
 import WmModel.GcConf
 import WmModel.GcMon
+import WmModel.GcTopicConf
 open Wm
 
 /-- `sub` streams: model = conformance with M_sub (subset construction), no property verdict of its own here;
@@ -15,6 +16,8 @@ def handle (line : String) : String :=
     | some c => GcConf.checkSub c (if toks == ["-"] then [] else toks)
     | none => "bad-op"
   | "P" :: "sub" :: _ => "ok"
+  | "M" :: "topic" :: toks => GcTopicConf.checkTopic toks
+  | "P" :: "topic" :: _ => "ok"
   | "M" :: "top" :: _ => "ok"
   | "P" :: "top" :: toks => GcMon.runMon GcMon.monC07 toks
   | _ => "bad-op"
